@@ -211,6 +211,20 @@ class Guard:
         self.kind = 'guard'
 
 
+_TH = None
+
+
+def _trusted_hashes():
+    global _TH
+    if _TH is None:
+        try:
+            import json
+            _TH = json.load(open(os.path.join(VERIF, 'contracts', 'trusted_hashes.json')))
+        except (OSError, ValueError):
+            _TH = {}
+    return _TH
+
+
 def normalise_code(text):
     rf = RustFile('<g>', text)
     out = []
@@ -324,6 +338,19 @@ class Unit:
                 except KeyError:
                     raise Undecided('guarded function %s not found in %s' % (e.fn, e.file))
                 got = normalise_code(rf.src[it['header_start']:it['end']])
+                if e.expected is None:
+                    # hash guard: the function is modelled by a hand-written trusted stub (contracts/*.rs); its text is pinned
+                    # in contracts/trusted_hashes.json (tools/trusted_hashes.py)
+                    import hashlib
+                    hv = hashlib.sha1(got.encode()).hexdigest()[:16]
+                    key = '%s::stub::%s%s' % (self.name, (e.impl + '::') if e.impl else '', e.fn)
+                    self.trusted_seen = getattr(self, 'trusted_seen', {})
+                    self.trusted_seen[key] = hv
+                    exp = _trusted_hashes().get(key)
+                    if exp is not None and exp != hv:
+                        raise Undecided('the text of %s in %s changed, but the unit models it by a trusted stub (%s): no verdict' % (e.fn, e.file, e.why))
+                    self.guards_ok.append('%s:%s' % (e.file, e.fn))
+                    continue
                 if got != e.expected:
                     raise Undecided('guarded (unverified) function %s in %s changed; %s\n  expected: %s\n  found:    %s' % (e.fn, e.file, e.why, e.expected, got))
                 self.guards_ok.append('%s:%s' % (e.file, e.fn))
@@ -474,6 +501,17 @@ class Unit:
         for a in it['attrs']:
             if not KEEP_ATTR.match(a):
                 self.dropped.add(re.sub(r'\(.*', '(..)]', a) if '(' in a else a)
+        if e.trusted and not getattr(e, 'auto', False) and not getattr(e, 'auto_trusted', False):
+            # a trusted function's contract was written against a reviewed text: if that text changes, the
+            # contract is no longer backed by anything (contracts/trusted_hashes.json, tools/trusted_hashes.py)
+            import hashlib
+            hv = hashlib.sha1(normalise_code(orig_text).encode()).hexdigest()[:16]
+            key = '%s::%s' % (self.name, e.qualname)
+            self.trusted_seen = getattr(self, 'trusted_seen', {})
+            self.trusted_seen[key] = hv
+            exp = _trusted_hashes().get(key)
+            if exp is not None and exp != hv and getattr(self, 'mutation', None) is None:
+                raise Undecided('the text of the TRUSTED function %s (%s) changed: its assumed contract was reviewed against another text; no verdict' % (e.qualname, e.file))
         text = self._apply_rewrites(e, orig_text)
         mut = getattr(self, 'mutation', None)
         if mut and mut[0] == e.qualname:
